@@ -42,6 +42,13 @@ def run(ctx: Ctx):
                         'boundary, nested blocks have any number of lines)',
                         'non-str leaves are integers (str() of other objects is their own contract)']
     STR_SEQ = z3.SeqSort(z3.StringSort())
+    ctx.bounded = getattr(ctx, 'bounded', []) + [
+        {'function': 'flatten_to_strlist / TextBlock.__init__ / append / __add__ / __iadd__ / chunk',
+         'bound': 'NESTING structure of the content argument: the 12 shapes of contents() (depth <= 3, width <= 4); every '
+                  'string leaf and every nested text block (any number of lines) symbolic',
+         'result': 'proved per shape'},
+        {'function': 'dznpy.misc_utils.trim_list', 'bound': 'list length <= 4 (quick) / <= 6 (thorough), items symbolic',
+         'result': 'proved per length (loops unrolled)'}]
 
     def s(p, name):
         return ops.mkstr([z3.String('in_' + name)])
